@@ -237,6 +237,7 @@ pub struct Ctx {
     pub level: Mutex<String>,
     pub rule: Mutex<String>,
     pub required_hits: Mutex<Vec<String>>,
+    pub known_finding_spaces: Mutex<Vec<String>>,
 }
 
 pub static SILENT: AtomicBool = AtomicBool::new(true);
@@ -305,6 +306,7 @@ impl Ctx {
             level: Mutex::new("exploration".to_string()),
             rule: Mutex::new(String::new()),
             required_hits: Mutex::new(vec![]),
+            known_finding_spaces: Mutex::new(vec![]),
         }
     }
     pub fn quick(&self) -> bool {
@@ -338,6 +340,9 @@ impl Ctx {
         for c in classes {
             r.push(c.to_string());
         }
+    }
+    pub fn known_finding_space(&self, name: &str) {
+        self.known_finding_spaces.lock().unwrap().push(name.to_string());
     }
     pub fn machinery_error(&self, m: String) {
         self.machinery.lock().unwrap().push(m);
@@ -517,7 +522,9 @@ impl Ctx {
         let viols = self.viols.lock().unwrap();
         let mut machinery = self.machinery.lock().unwrap().clone();
         let thresholds = self.thresholds.lock().unwrap();
-        let total_viol_pre: u64 = spaces.iter().map(|s| s.viol_total).sum();
+        // spaces that only hold the listed known findings do not make a run "unclean" for the vacuity / overflow policy
+        let kf = self.known_finding_spaces.lock().unwrap().clone();
+        let total_viol_pre: u64 = spaces.iter().filter(|s| !kf.contains(&s.name)).map(|s| s.viol_total).sum();
         if RAT_OVERFLOWS.load(Ordering::Relaxed) > 0 && total_viol_pre == 0 {
             // with genuine violations on record an overflow is a symptom of the broken code (garbage growth), not a reason
             // to withhold the verdict; without any it means the alphabet is too large for i128
